@@ -7,10 +7,10 @@
 // ASSUME: PerThreadStorage runs over the harness environment C15_env.h (512-byte per-thread blocks from calloc; real PerThreadStorage.cpp)
 // OB: ob_ring_T2 tier=quick unwind=90 timeout=1500 solver=cadical bounds="ring detector: T=2, <=2 report rounds per thread, <=2 initial work units + <=1 created, 44 steps" desc="soundness: termination is never observed while the pool is non-empty or a thread holds work or has an unreported didWork"
 // OB: ob_ring_live_T2 tier=quick unwind=90 timeout=1500 solver=cadical bounds="ring detector: T=2, arbitrary prefix of <=2 rounds per thread, then round-robin idle reports: termination within 3*T+2 reports per thread" desc="bounded liveness once everybody is idle; re-arming for a second loop with a different thread count"
-// OB: ob_tree_T2 tier=thorough unwind=90 timeout=1500 solver=cadical bounds="tree detector: T=2, <=2 report rounds per thread, 56 steps" desc="soundness of the tree detector"
-// OB: ob_tree_live_T2 tier=thorough unwind=90 timeout=1500 solver=cadical bounds="tree detector: T=2, prefix <=2 rounds per thread then round-robin idle reports: termination within 4*depth+6 reports per thread" desc="bounded liveness of the tree detector"
+// OB: ob_tree_T2 tier=attic unwind=90 timeout=1500 solver=cadical bounds="tree detector: T=2, <=2 report rounds per thread, 56 steps" desc="soundness of the tree detector"
+// OB: ob_tree_live_T2 tier=attic unwind=90 timeout=1500 solver=cadical bounds="tree detector: T=2, prefix <=2 rounds per thread then round-robin idle reports: termination within 4*depth+6 reports per thread" desc="bounded liveness of the tree detector"
 // OB: ob_ring_T3 tier=thorough unwind=90 timeout=3600 solver=cadical bounds="ring detector: T=3, <=2 rounds per thread, 66 steps" desc="soundness, three threads"
-// OB: ob_tree_T3 tier=thorough unwind=90 timeout=3600 solver=cadical bounds="tree detector: T=3 (root with two children), <=2 rounds, 84 steps" desc="soundness, three threads"
+// OB: ob_tree_T3 tier=attic unwind=90 timeout=3600 solver=cadical bounds="tree detector: T=3 (root with two children), <=2 rounds, 84 steps" desc="soundness, three threads"
 #include "C15_env.h"
 #include "galois/substrate/Termination.h"
 
